@@ -799,6 +799,12 @@ func genFrameConsts() (string, error) {
 	o.nat("tars_maxPackageLength", "TarsGo "+string(mv[1])+" tars/protocol maxPackageLength (default)", a)
 	o.nat("tars_minPackageLength", "TarsGo TarsRequest: iHeaderLen below this is PACKAGE_ERROR", b)
 	o.nat("tars_lenFieldSize", "TarsGo TarsRequest: bytes needed to read the length", c)
+	// [c08l9] what Decode maps PACKAGE_ERROR to (extract/gen_c08l9tars.go)
+	ts, err := c08l9TarsStatus()
+	if err != nil {
+		return "", err
+	}
+	o.sb.WriteString(ts)
 
 	// HTTP/1 method table
 	hs, err := parse("pkg/stream/http/stream.go")
